@@ -168,12 +168,31 @@ def run():
     g = P.Gen(rng, max_steps=5)
     for a in E.KINDS:
         for b in E.KINDS:
-            for _ in range(ck.n(1, 4) * (3 if broken else 1)):
+            positional = "take" in (a, b)
+            for _ in range(ck.n(3 if positional else 1, 6 if positional else 4) * (3 if broken else 1)):
                 pre = ["sort"] if (a in ("take", "win", "group_take", "group_win") and rng.random() < 0.8) else []
                 pg = g.program(n_steps=len(pre) + 2 + rng.randint(0, 1), force=pre + [a, b])
-                cases.append((pg, [P.gen_instance(rng, max_rows=6, min_rows=3), P.gen_instance(rng, max_rows=0)]))
+                # takes only matter when they cut: at least 5 rows when a take is involved
+                cases.append((pg, [P.gen_instance(rng, max_rows=7, min_rows=5 if positional else 3), P.gen_instance(rng, max_rows=0)]))
     recs = E.run_stream(ck, "pairs", cases, targets, judge_rows, classify)
     segments_stream(ck, recs)
+
+    # directed families the split/sort machinery is sensitive to (see DESIGN.md 0.4)
+    cases = []
+    g = P.Gen(rng, max_steps=7)
+    for _ in range(ck.n(30, 150) * (3 if broken else 1)):      # join on all columns keeping left columns (set-operation rewrite)
+        pg = g.program(n_steps=1 + rng.randint(0, 2), force=["alljoin"])
+        cases.append((pg, [P.gen_instance(rng, max_rows=6, min_rows=3)]))
+    for _ in range(ck.n(24, 120) * (3 if broken else 1)):      # named prefix ending in a sort, then sort | take | group
+        pg = g.program(n_steps=4 + rng.randint(0, 1), force=["sort", "sort", "take", rng.choice(["group_agg", "aggregate", "group_take", "filter"])])
+        if [x.kind for x in pg.steps[:2]] == ["sort", "sort"] and not any(x.kind in ("join", "append") for x in pg.steps):
+            pg.meta["let_at"] = 1
+        cases.append((pg, [P.gen_instance(rng, max_rows=7, min_rows=5)]))
+    for _ in range(ck.n(24, 120) * (3 if broken else 1)):      # sort | join | take | select | group
+        pg = g.program(n_steps=5 + rng.randint(0, 1), force=["sort", "join", "take", "select", rng.choice(["group_agg", "aggregate", "distinct"])])
+        cases.append((pg, [P.gen_instance(rng, max_rows=7, min_rows=5)]))
+    recs3 = E.run_stream(ck, "directed", cases, targets, judge_rows, classify)
+    segments_stream(ck, recs3)
 
     # random programs
     cases = []
